@@ -208,6 +208,18 @@ def _run_case(case, rec, mon=None):
         if own:
             monitor.detach_all()
         return
+    if case["idx"] % 9 == 4:
+        # the computer as a worker process gets it: a deep copy or a pickle round trip - a computer of the same configuration
+        from ..common import copied
+
+        way = ("deepcopy", "pickle")[(case["idx"] // 9) % 2]
+        try:
+            c2 = copied(comp, way)
+            compmon.adopt(c2, comp)
+            comp = c2
+            rec.count("computers_used_through_a_%s" % way)
+        except Exception as e:
+            rec.violation(dict(what="copying (%s) an SI computer raised %r" % (way, e), case=case, check="copy_raise"))
     inf = compmon.info(comp)
     width = inf["ir_widths"][0] if inf and len(inf["ir_widths"]) == 1 else None
     fs, fl = comp.frame_shift, comp.frame_length
